@@ -283,6 +283,65 @@ theorem fk_repeatLoop (c : RCfg) (step : Val → Prog) (hshape : StepShape step)
         intro hnil
         exact hio.kept (List.append_eq_nil_iff.mp hnil).1
 
+/-! ### floats -/
+
+theorem ps_uintNoReject (max : UInt64) (k : UInt64 → Prog) (hk : ∀ u, PS (k u)) : PS (uintNoReject max k) :=
+  ps_group_keep _ _ _ _ (ps_draw _ _ (fun _ => ps_ret _)) (fun _ => hk _) (keepsSome_of_firstKept (fk_draw _ _))
+theorem tp_uintNoReject (max : UInt64) (k : UInt64 → Prog) (hk : ∀ u, TsPure (k u)) : TsPure (uintNoReject max k) :=
+  tp_group _ _ _ _ _ (tp_draw _ _ (fun _ => tp_ret _)) (fun _ => hk _)
+theorem fk_uintNoReject (max : UInt64) (k : UInt64 → Prog) : FirstKept (uintNoReject max k) :=
+  fk_group_keep _ _ _ _ (fk_draw _ _)
+
+theorem ps_ufloatSignif (ft : FT) (S : Nat) (p0 p1 : Int × UInt64 × UInt64) (e : Int) (l r : Bool) (fuel : Nat)
+    (k : UInt64 × UInt64 → Prog) (hk : ∀ x, PS (k x)) : PS (ufloatSignif ft S p0 p1 e l r fuel k) :=
+  ps_uintRange _ _ _ _ _ _ (fun _ _ _ => ps_uintNoReject _ _ (fun _ => ps_uintRange _ _ _ _ _ _ (fun _ _ _ => hk _)))
+theorem tp_ufloatSignif (ft : FT) (S : Nat) (p0 p1 : Int × UInt64 × UInt64) (e : Int) (l r : Bool) (fuel : Nat)
+    (k : UInt64 × UInt64 → Prog) (hk : ∀ x, TsPure (k x)) : TsPure (ufloatSignif ft S p0 p1 e l r fuel k) :=
+  tp_uintRange _ _ _ _ _ _ (fun _ _ _ => tp_uintNoReject _ _ (fun _ => tp_uintRange _ _ _ _ _ _ (fun _ _ _ => hk _)))
+theorem fk_ufloatSignif (ft : FT) (S : Nat) (p0 p1 : Int × UInt64 × UInt64) (e : Int) (l r : Bool) (fuel : Nat)
+    (k : UInt64 × UInt64 → Prog) : FirstKept (ufloatSignif ft S p0 p1 e l r fuel k) :=
+  fk_uintRange _ _ _ _ _ _
+
+theorem ps_ufloatRange (ft : FT) (f : FFmt) (min max : UInt64) (fuel : Nat) (k : Int → UInt64 → UInt64 → Prog)
+    (hk : ∀ e si sf, PS (k e si sf)) : PS (ufloatRange ft f min max fuel k) := by
+  unfold ufloatRange
+  split
+  · exact ps_throw _
+  · exact ps_group_keep _ _ _ _ (ps_intRange _ _ _ _ _ (fun _ _ _ => ps_ret _))
+      (fun v => ps_group_keep _ _ _ _ (ps_ufloatSignif _ _ _ _ _ _ _ _ _ (fun _ => ps_ret _)) (fun _ => hk _ _ _)
+        (keepsSome_of_firstKept (fk_ufloatSignif _ _ _ _ _ _ _ _ _)))
+      (keepsSome_of_firstKept (fk_intRange _ _ _ _ _))
+
+theorem tp_ufloatRange (ft : FT) (f : FFmt) (min max : UInt64) (fuel : Nat) (k : Int → UInt64 → UInt64 → Prog)
+    (hk : ∀ e si sf, TsPure (k e si sf)) : TsPure (ufloatRange ft f min max fuel k) := by
+  unfold ufloatRange
+  split
+  · exact tp_throw _
+  · exact tp_group _ _ _ _ _ (tp_intRange _ _ _ _ _ (fun _ _ _ => tp_ret _))
+      (fun v => tp_group _ _ _ _ _ (tp_ufloatSignif _ _ _ _ _ _ _ _ _ (fun _ => tp_ret _)) (fun _ => hk _ _ _))
+
+theorem fk_ufloatRange (ft : FT) (f : FFmt) (min max : UInt64) (fuel : Nat) (k : Int → UInt64 → UInt64 → Prog) :
+    FirstKept (ufloatRange ft f min max fuel k) := by
+  unfold ufloatRange
+  split
+  · intro src ts v h; simp [Prog.run, Out.ofRes] at h
+  · exact fk_group_keep _ _ _ _ (fk_intRange _ _ _ _ _)
+
+theorem ps_floatValue (ft : FT) (f : FFmt) (min max : UInt64) (fuel : Nat) (k : UInt64 → Prog) (hk : ∀ b, PS (k b)) :
+    PS (floatValue ft f min max fuel k) := by
+  unfold floatValue floatRange
+  exact ps_coin _ _ (fun neg => by cases neg <;> exact ps_ufloatRange _ _ _ _ _ _ (fun _ _ _ => hk _))
+
+theorem tp_floatValue (ft : FT) (f : FFmt) (min max : UInt64) (fuel : Nat) (k : UInt64 → Prog) (hk : ∀ b, TsPure (k b)) :
+    TsPure (floatValue ft f min max fuel k) := by
+  unfold floatValue floatRange
+  exact tp_coin _ _ (fun neg => by cases neg <;> exact tp_ufloatRange _ _ _ _ _ _ (fun _ _ _ => hk _))
+
+theorem fk_floatValue (ft : FT) (f : FFmt) (min max : UInt64) (fuel : Nat) (k : UInt64 → Prog) :
+    FirstKept (floatValue ft f min max fuel k) := by
+  unfold floatValue floatRange
+  exact fk_coin _ _
+
 /-! ### assembly over `Gen` -/
 
 /-- what the theorems need of a generator program -/
@@ -301,7 +360,7 @@ theorem gg_bind_ret {p : Prog} (h : GenGood p) (f : Val → Val) : GenGood (p >>
 
 /-- no `Custom` inside (Custom bodies are user code: see `CustomGood` for the conditions) -/
 def Gen.NoCustom : Gen → Prop
-  | .bool | .uint _ _ | .int _ _ | .sampled _ | .perm _ | .runeFrom _ => True
+  | .bool | .uint _ _ | .int _ _ | .sampled _ | .perm _ | .runeFrom _ | .float _ _ _ => True
   | .oneOf _ g => ∀ i, (g i).NoCustom
   | .filter g _ | .map g _ | .ptr g _ | .deferred g | .asAny g => g.NoCustom
   | .slice el _ _ | .distinct el _ _ _ | .mapOfValues el _ _ _ | .stringOf el _ _ _ => el.NoCustom
@@ -463,6 +522,9 @@ theorem gen_good (e : Env) (hrt : RTPos e) : ∀ (g : Gen) (lab : Bool), g.NoCus
     exact ps_repeatLoop _ step (Or.inr hnorej) hps htp hshape _ (fun acc => by split <;> exact ps_ret _) e.fuel e.fuel (Nat.le_refl _)
       {} {} _ ⟨rfl, rfl⟩ (fun h => by cases h) (fun _ => rfl) src ts xs hgood ho
   | custom body => intro lab h; exact absurd h (by simp [Gen.NoCustom])
+  | float f mn mx =>
+    intro _ _
+    exact ⟨ps_floatValue _ _ _ _ _ _ (fun _ => ps_ret _), tp_floatValue _ _ _ _ _ _ (fun _ => tp_ret _), fk_floatValue _ _ _ _ _ _⟩
   | deferred g ih => intro lab h; exact gg_value _ (ih _ h)
   | asAny g ih => intro lab h; exact gg_value _ (ih _ h)
   | runeFrom runes =>
